@@ -6,13 +6,16 @@ package main
 // The binary is built with -race; ./check turns the race detector's reports into failures.
 
 import (
+	"bytes"
 	"fmt"
 	"os"
 	"reflect"
+	"runtime"
 	"sort"
 	"strconv"
 	"strings"
 	"sync"
+	"sync/atomic"
 	"time"
 	"unsafe"
 
@@ -21,6 +24,7 @@ import (
 	"google.golang.org/protobuf/encoding/prototext"
 	"google.golang.org/protobuf/proto"
 	"google.golang.org/protobuf/reflect/protoreflect"
+	"google.golang.org/protobuf/runtime/protoiface"
 	"google.golang.org/protobuf/types/dynamicpb"
 	"google.golang.org/protobuf/types/known/anypb"
 )
@@ -182,8 +186,54 @@ func detBytes(m proto.Message) string {
 	return hx(b)
 }
 
+// concViolated marks the result of an operation that found, by itself, that what it was handed did not stay intact: a failure
+// in the sequential run already (a reader that marshals twice is its own "other reader")
+const concViolated = "VIOLATED: "
+
+// concSentinel: a fresh 8-byte pattern for every reader that appends to a buffer it was handed (harness state, atomic)
+var concSentinel uint64
+
+func sentinelBytes() []byte {
+	n := atomic.AddUint64(&concSentinel, 1)
+	b := make([]byte, 40)
+	for i := range b {
+		b[i] = byte(n>>(8*uint(i%8))) ^ byte(0xA5+i/8)
+	}
+	return b
+}
+
 func (c *concCtx) ops(mi *msgInfo, v *V) []concOp {
 	si := c.si
+	// a second message of the same type with other (never empty) content, shared by all readers and only ever marshalled:
+	// what a reader was handed by a marshal call must still be there after it, or anybody else, has marshalled something else
+	noiseV := c.lib.g.msg(mi, 2, 6)
+	noiseV.Unk = append(noiseV.Unk, genUnknownFor(c.lib.r, mi)...)
+	noise := c.lib.G(mi, noiseV)
+	noiseDet := func() string {
+		b, err := proto.MarshalOptions{Deterministic: true}.Marshal(noise)
+		if err != nil {
+			return "err"
+		}
+		return hx(b)
+	}
+	// kept: what `held` (a buffer a marshal call returned, possibly extended by the reader) reads after other marshal calls
+	// (by this reader and, after yielding, by the others) against the copy taken when the call returned
+	kept := func(what string, held, first []byte) string {
+		n1 := noiseDet()
+		if nb, err := (proto.MarshalOptions{}).MarshalAppend(nil, noise); err != nil || len(nb) == 0 {
+			return concViolated + what + ": marshalling the other message fails"
+		}
+		runtime.Gosched()
+		n2 := noiseDet()
+		runtime.Gosched()
+		if !bytes.Equal(held, first) {
+			return fmt.Sprintf(concViolated+"%s: the buffer the call returned read %s when it returned and reads %s after other Marshal calls", what, hx(first), hx(held))
+		}
+		if n1 != n2 {
+			return fmt.Sprintf(concViolated+"%s: the other message marshals to %s, then to %s", what, n1, n2)
+		}
+		return "noise=" + n1
+	}
 	uniqueNondet := maxMapLen(v) <= 1
 	fields := mi.md.Fields()
 	oneofs := mi.md.Oneofs()
@@ -228,6 +278,47 @@ func (c *concCtx) ops(mi *msgInfo, v *V) []concOp {
 				return "err"
 			}
 			return canonBytes(b)
+		}},
+		{"methods-marshal-nilbuf", func(m, _ proto.Message) string {
+			// the generated Marshal called directly with no destination buffer: the result belongs to the caller
+			r := m.ProtoReflect()
+			meth := r.ProtoMethods()
+			if meth == nil || meth.Marshal == nil {
+				return "no-methods"
+			}
+			out, err := meth.Marshal(protoiface.MarshalInput{Message: r})
+			if err != nil {
+				return "err"
+			}
+			first := append([]byte{}, out.Buf...)
+			return canonBytes(first) + " " + kept("ProtoMethods().Marshal(Buf: nil)", out.Buf, first)
+		}},
+		{"methods-marshal-sparebuf", func(m, _ proto.Message) string {
+			// ... and with an empty destination buffer that has room: result = the encoding, wherever it lives
+			r := m.ProtoReflect()
+			meth := r.ProtoMethods()
+			if meth == nil || meth.Marshal == nil {
+				return "no-methods"
+			}
+			buf := make([]byte, 0, proto.Size(m)+24)
+			out, err := meth.Marshal(protoiface.MarshalInput{Message: r, Buf: buf})
+			if err != nil {
+				return "err"
+			}
+			first := append([]byte{}, out.Buf...)
+			return canonBytes(first) + " " + kept("ProtoMethods().Marshal(Buf: empty with spare capacity)", out.Buf, first)
+		}},
+		{"marshalappend-nil-append", func(m, _ proto.Message) string {
+			// MarshalAppend(nil, m): the returned slice is the caller's, spare capacity included: appending to it must not
+			// touch anything anybody else uses, and nobody else may touch what was appended
+			b, err := proto.MarshalOptions{}.MarshalAppend(nil, m)
+			if err != nil {
+				return "err"
+			}
+			enc := append([]byte{}, b...)
+			b = append(b, sentinelBytes()...)
+			first := append([]byte{}, b...)
+			return canonBytes(enc) + " " + kept("MarshalAppend(nil, m) + append", b, first)
 		}},
 		{"equal", func(m, priv proto.Message) string { return tf(proto.Equal(m, priv)) + tf(proto.Equal(priv, m)) }},
 		{"clone", func(m, _ proto.Message) string { return detBytes(proto.Clone(m)) }},
@@ -347,11 +438,16 @@ func (c *concCtx) coldStart(mi *msgInfo, v *V) {
 	for _, op := range ops {
 		seq[op.name] = runOp(op, sharedMsg, priv0)
 	}
+	for _, op := range ops {
+		if k := strings.Index(seq[op.name], concViolated); k >= 0 {
+			o.withKey("conc/"+id+"/"+op.name+"/result-clobbered").prop("C11", false, fmt.Sprintf("a single reader of %s: %.600s; value %s", id, seq[op.name][k+len(concViolated):], v))
+		}
+	}
 	for g := range got {
 		for _, r := range got[g] {
 			nm, val, _ := strings.Cut(r, "\x00")
 			if val != seq[nm] {
-				o.withKey("conc/"+id+"/coldstart").prop("C11", false, fmt.Sprintf("cold start: goroutine %d's first %s on a shared %s gave %.200q, a sequential reader gets %.200q", g, nm, id, val, seq[nm]))
+				o.withKey("conc/"+id+"/coldstart").prop("C11", false, fmt.Sprintf("cold start: goroutine %d's first %s on a shared %s gave %.200q, a sequential reader gets %.200q; first difference (sequential -> concurrent): %s", g, nm, id, val, seq[nm], snapDiff(seq[nm], val)))
 			} else {
 				o.propOK++
 			}
@@ -379,6 +475,9 @@ func (c *concCtx) shared(mi *msgInfo, v *V, iters int, deadline time.Time) {
 			fmt.Sprintf("read-only operation %s writes to the message struct of %s (sequential run): %s; value %s", op.name, id, snapDiff(prev, after), v))
 		prev = after
 		o.withKey("conc/"+id+"/"+op.name+"/panic").prop("C11", !strings.HasPrefix(seq[i], "panic: "), fmt.Sprintf("read-only operation %s on %s panics: %s; value %s", op.name, id, seq[i], v))
+		if k := strings.Index(seq[i], concViolated); k >= 0 {
+			o.withKey("conc/"+id+"/"+op.name+"/result-clobbered").prop("C11", false, fmt.Sprintf("a single reader of %s: %.600s; value %s", id, seq[i][k+len(concViolated):], v))
+		}
 		again := runOp(op, sharedMsg, priv0)
 		o.withKey("conc/"+id+"/"+op.name+"/unstable").prop("C11", again == seq[i], fmt.Sprintf("read-only operation %s on %s gives two answers in a sequential run: %.300q then %.300q; value %s", op.name, id, seq[i], again, v))
 	}
@@ -405,8 +504,10 @@ func (c *concCtx) shared(mi *msgInfo, v *V, iters int, deadline time.Time) {
 					j := (k + g*2 + it) % len(ops) // staggered: different operations overlap
 					r := runOp(ops[j], sharedMsg, privs[g])
 					res[g].n++
-					if r != seq[j] && len(res[g].bad) < 3 {
-						res[g].bad = append(res[g].bad, fmt.Sprintf("%s: %.200q, sequential run %.200q", ops[j].name, r, seq[j]))
+					if k := strings.Index(r, concViolated); k >= 0 && len(res[g].bad) < 3 {
+						res[g].bad = append(res[g].bad, fmt.Sprintf("%s: %.600s", ops[j].name, r[k+len(concViolated):]))
+					} else if r != seq[j] && len(res[g].bad) < 3 {
+						res[g].bad = append(res[g].bad, fmt.Sprintf("%s: %.200q, sequential run %.200q; first difference (sequential -> concurrent): %s", ops[j].name, r, seq[j], snapDiff(seq[j], r)))
 					}
 				}
 				if iters < 0 && time.Now().After(deadline) {
@@ -461,6 +562,15 @@ func engineConc(cfg config, o *out) {
 	}
 	gen := func(j job, k int) *V {
 		lib := j.c.lib
+		if k%4 == 2 {
+			// the empty message (size 0: the library hands the generated Marshal no buffer at all); every other time with
+			// nothing but an unknown record
+			v := j.c.si.emptyV(j.mi)
+			if k%8 == 6 {
+				v.Unk = append(v.Unk, genUnknownFor(lib.r, j.mi)...)
+			}
+			return v
+		}
 		v := lib.g.msg(j.mi, 2, 3+lib.r.intn(5))
 		if k%2 == 1 {
 			v.Unk = append(v.Unk, genUnknownFor(lib.r, j.mi)...)
@@ -477,8 +587,12 @@ func engineConc(cfg config, o *out) {
 	if !cfg.thorough() {
 		// quick: 2 shared messages per type, ~1k operations per goroutine on each
 		for _, j := range jobs {
-			for k := 0; k < 2; k++ {
-				j.c.shared(j.mi, gen(j, k), 68, time.Time{})
+			for k := 0; k < 3; k++ {
+				iters := 68
+				if k == 2 {
+					iters = 40 // the empty message
+				}
+				j.c.shared(j.mi, gen(j, k), iters, time.Time{})
 			}
 		}
 		return
